@@ -1,5 +1,6 @@
 (* C07 - tail calls run in constant depth; deep recursion signals.  Only statements. *)
-From PL Require Import Eval.EvalRules Eval.SemProofs Eval.TailProofs.
+From PL Require Import Eval.EvalRules Eval.SemProofs Eval.TailProofs Eval.PreludeState Eval.PreludeProofs Eval.LengthProofs.
+From Coq Require Import ZArith.
 From Coq Require Import String.
 Local Open Scope string_scope.
 Local Open Scope list_scope.
@@ -44,3 +45,10 @@ Print Assumptions C07_depth_guard.
 Theorem C07_loop_any_length : loop_any_length_statement.
 Proof. exact loop_any_length_proof. Qed.
 Print Assumptions C07_loop_any_length.
+
+(* the same for code of the interpreter's own prelude (generated text): length walks EVERY list in a
+   loop that stays at the depth d it was called at (the statement evaluates the body with eval_loop
+   at d for any d + 3 <= MAXD, whatever the length) - and so do range, foldl, reverse and map (C16) *)
+Theorem C07_prelude_length_constant_depth : forall xs, in_i64 (Z.of_nat (List.length xs)) = true -> length_statement xs.
+Proof. exact length_spec. Qed.
+Print Assumptions C07_prelude_length_constant_depth.
